@@ -59,11 +59,34 @@ type c03Pos struct {
 	path []interface{}
 }
 
+// c03B64 in a path: the string at this point is base64url of a JSON object / array, the path continues inside it (the
+// protected header of a JWE, the header and the claims of a JWS, ...)
+type c03B64 struct{}
+
+func c03Inner(s string) (interface{}, bool) {
+	if len(s) < 4 {
+		return nil, false
+	}
+	raw, err := base64.RawURLEncoding.DecodeString(strings.TrimRight(s, "="))
+	if err != nil || len(raw) == 0 || (raw[0] != '{' && raw[0] != '[') {
+		return nil, false
+	}
+	var inner interface{}
+	if json.Unmarshal(raw, &inner) != nil {
+		return nil, false
+	}
+	return inner, true
+}
+
 func c03Positions(v interface{}, path []interface{}, out *[]c03Pos) {
 	if len(path) > 0 {
 		*out = append(*out, c03Pos{append([]interface{}{}, path...)})
 	}
 	switch t := v.(type) {
+	case string:
+		if inner, ok := c03Inner(t); ok && len(path) < 12 {
+			c03Positions(inner, append(append([]interface{}{}, path...), c03B64{}), out)
+		}
 	case map[string]interface{}:
 		keys := make([]string, 0, len(t))
 		for k := range t {
@@ -92,6 +115,17 @@ func c03Confuse(root interface{}, k, r int) interface{} {
 	set = func(cur interface{}, path []interface{}) interface{} {
 		last := len(path) == 1
 		switch key := path[0].(type) {
+		case c03B64:
+			str, _ := cur.(string)
+			inner, ok := c03Inner(str)
+			if !ok || last {
+				return cur
+			}
+			b, err := json.Marshal(set(inner, path[1:]))
+			if err != nil {
+				return cur
+			}
+			return base64.RawURLEncoding.EncodeToString(b)
 		case string:
 			m := cur.(map[string]interface{})
 			if !last {
@@ -176,6 +210,29 @@ func c03JSON(valid []byte, k, r int) []byte {
 	return b
 }
 
+// a compact serialization (segments joined by "."; an SD-JWT combined format: "~") is confused as the array of its
+// segments: a segment replaced, removed, cut - or a member INSIDE a base64url JSON segment confused
+func c03Compact(tok, sep string, k, r int) string {
+	var segs []interface{}
+	for _, x := range strings.Split(tok, sep) {
+		segs = append(segs, x)
+	}
+	out, ok := c03Confuse(segs, k, r).([]interface{})
+	if !ok {
+		return tok
+	}
+	var parts []string
+	for _, x := range out {
+		if str, ok := x.(string); ok {
+			parts = append(parts, str)
+		} else {
+			b, _ := json.Marshal(x)
+			parts = append(parts, base64.RawURLEncoding.EncodeToString(b))
+		}
+	}
+	return strings.Join(parts, sep)
+}
+
 // byte strings: truncation, extension, a byte set to an extreme
 func c03Bytes(valid []byte, k, r int) []byte {
 	if len(valid) == 0 {
@@ -253,6 +310,8 @@ func c03Run(input string) string {
 		return c03PresExch(f[1], k, r)
 	case "proto":
 		return c03Proto(f[1], k, r)
+	case "claims":
+		return c03Claims(f[1], k, r)
 	}
 	return "bad-input"
 }
@@ -269,12 +328,7 @@ func c03Envelope(variant string, k, r int) string {
 	}
 	confused := c03JSON(env, k, r)
 	if !strings.HasPrefix(string(env), "{") { // compact: confuse one of the five segments
-		seg := strings.Split(string(env), ".")
-		i := k % len(seg)
-		if v, ok := c03Surgery(seg[i], 1+r%3).(string); ok {
-			seg[i] = v
-		}
-		confused = []byte(strings.Join(seg, "."))
+		confused = []byte(c03Compact(string(env), ".", k, r))
 	}
 	// the recipient's own packer, and a packager that holds all four packers
 	_, e1 := packers[1].Unpack(confused)
@@ -318,11 +372,7 @@ func c03JWS(variant string, k, r int) string {
 	if len(seg) != 3 {
 		return "na"
 	}
-	i := k % 3
-	if s, ok := c03Surgery(seg[i], r%4).(string); ok {
-		seg[i] = s
-	}
-	confused := strings.Join(seg, ".")
+	confused := c03Compact(tok, ".", k, r)
 	resolver := jwt.KeyResolverFunc(didsignjwt.NewVDRKeyResolver(c08Resolver{}).PublicKeyFetcher())
 	var err error
 	switch v[2] {
@@ -367,6 +417,105 @@ func c03VC(variant string, k, r int) string {
 		return "ok"
 	}
 	return "err"
+}
+
+// tokens whose CLAIMS are confused before they are secured: the other party signs whatever it likes with its own key, so
+// a verifier sees correctly signed (or, with the proof check disabled, unsecured) tokens with arbitrary claim sets.
+// variant: "<vc|vp|jwt>,<none|ed>"
+func c03Claims(variant string, k, r int) string {
+	v := strings.Split(variant, ",")
+	if len(v) != 2 {
+		return "bad-input"
+	}
+	vc := map[string]interface{}{
+		"@context": []interface{}{"https://www.w3.org/2018/credentials/v1"}, "type": []interface{}{"VerifiableCredential"},
+		"issuer":            map[string]interface{}{"id": "did:example:issuer", "name": "I"},
+		"credentialSubject": map[string]interface{}{"id": "did:example:subject", "name": "x"},
+		"credentialStatus":  map[string]interface{}{"id": "https://example.edu/status/24", "type": "CredentialStatusList2017"},
+		"credentialSchema":  []interface{}{}, "issuanceDate": "2020-01-01T19:23:24Z",
+	}
+	vcClaims := map[string]interface{}{"iss": "did:example:issuer", "sub": "did:example:subject", "nbf": 1577836800, "iat": 1577836800,
+		"exp": 1893456000, "jti": "urn:uuid:c03", "vc": vc}
+	secure := func(claims []byte) string {
+		if v[1] == "none" {
+			return base64.RawURLEncoding.EncodeToString([]byte(`{"alg":"none","typ":"JWT"}`)) + "." + base64.RawURLEncoding.EncodeToString(claims) + "."
+		}
+		in := base64.RawURLEncoding.EncodeToString([]byte(`{"alg":"EdDSA","kid":"did:example:issuer#key-1","typ":"JWT"}`)) + "." +
+			base64.RawURLEncoding.EncodeToString(claims)
+		sig, err := envCrypto.Sign([]byte(in), c07E.handles["ed"])
+		if err != nil {
+			return ""
+		}
+		return in + "." + base64.RawURLEncoding.EncodeToString(sig)
+	}
+	fetcher := verifiable.SingleKey(c07E.pubs["ed"], "Ed25519VerificationKey2018")
+	var valid map[string]interface{}
+	switch v[0] {
+	case "vc", "jwt":
+		valid = vcClaims
+	case "vp":
+		b, _ := json.Marshal(vcClaims)
+		valid = map[string]interface{}{"iss": "did:example:holder", "jti": "urn:uuid:c03p", "aud": "did:example:verifier", "nbf": 1577836800,
+			"vp": map[string]interface{}{"@context": []interface{}{"https://www.w3.org/2018/credentials/v1"},
+				"type": []interface{}{"VerifiablePresentation"}, "verifiableCredential": []interface{}{secure(b), vc}}}
+	default:
+		return "bad-input"
+	}
+	// one to three confusions; every other case stays at the top level of the claim set (registered claims, "vc", "vp")
+	rounds := 1 + (r/19)%3
+	for i := 0; i < rounds; i++ {
+		ki, ri := k/(i+1)+i*7, r+i*5
+		if k%2 == 0 {
+			var keys []string
+			for key := range valid {
+				keys = append(keys, key)
+			}
+			sort.Strings(keys)
+			if len(keys) == 0 {
+				break
+			}
+			key := keys[(ki/2)%len(keys)]
+			n := len(c03Repl)
+			switch x := ri % (n + 3); {
+			case x < n:
+				valid[key] = c03Repl[x]
+			default:
+				delete(valid, key)
+			}
+		} else if m, ok := c03Confuse(valid, ki, ri).(map[string]interface{}); ok {
+			valid = m
+		}
+	}
+	b, err0 := json.Marshal(valid)
+	if err0 != nil {
+		return "na"
+	}
+	tok := secure(b)
+	if tok == "" {
+		return "na"
+	}
+	var err error
+	switch v[0] {
+	case "vc":
+		if v[1] == "none" {
+			_, err = verifiable.ParseCredential([]byte(tok), verifiable.WithDisabledProofCheck(), verifiable.WithJSONLDDocumentLoader(c07E.loader))
+		} else {
+			_, err = verifiable.ParseCredential([]byte(tok), verifiable.WithPublicKeyFetcher(fetcher), verifiable.WithJSONLDDocumentLoader(c07E.loader))
+		}
+	case "vp":
+		if v[1] == "none" {
+			_, err = verifiable.ParsePresentation([]byte(tok), verifiable.WithPresDisabledProofCheck(), verifiable.WithPresJSONLDDocumentLoader(c07E.loader))
+		} else {
+			_, err = verifiable.ParsePresentation([]byte(tok), verifiable.WithPresPublicKeyFetcher(fetcher), verifiable.WithPresJSONLDDocumentLoader(c07E.loader))
+		}
+	default:
+		if v[1] == "none" {
+			_, _, err = jwt.Parse(tok, jwt.WithSignatureVerifier(jwt.UnsecuredJWTVerifier()))
+		} else {
+			_, _, err = jwt.Parse(tok, jwt.WithSignatureVerifier(jwt.NewVerifier(jwt.KeyResolverFunc(fetcher))))
+		}
+	}
+	return c03Res(err)
 }
 
 func c03DID(variant string, k, r int) string {
@@ -656,7 +805,11 @@ func c03Gen(r *Rng, tier string) []string {
 		case x < 16:
 			entry, variant = "sdjwt", c18Gen(r, "quick")[0]
 		case x < 17:
-			entry, variant = "presexch", r.Pick([]string{"def", "vc"})
+			if r.N(3) > 0 {
+				entry, variant = "claims", r.Pick([]string{"vc", "vc", "vp", "vp", "jwt"})+","+r.Pick([]string{"none", "ed"})
+			} else {
+				entry, variant = "presexch", r.Pick([]string{"def", "vc"})
+			}
 		default:
 			switch r.N(5) {
 			case 0:
